@@ -5,6 +5,7 @@ package main
 
 import (
 	"fmt"
+	"os"
 	"go/constant"
 	"go/token"
 	"go/types"
@@ -157,6 +158,14 @@ func (e *Exec) callSSA(caller *frame, pos token.Pos, fn *ssa.Function, args []Va
 		panic(pathEnd{"unwind:call-depth " + name})
 	}
 	e.funcsSeen[fn] = true
+	if callTrace != "" && strings.Contains(name, callTrace) {
+		var as []string
+		for _, a := range args {
+			as = append(as, showVal(a))
+		}
+		fmt.Fprintf(os.Stderr, "%*sCALL %s(%s)\n", e.depth, "", name, strings.Join(as, ", "))
+		defer func(d int) { fmt.Fprintf(os.Stderr, "%*sRET  %s\n", d, "", name) }(e.depth)
+	}
 	fr := &frame{fn: fn, env: make(map[ssa.Value]Value, len(fn.Params)+len(fn.FreeVars)+16), caller: caller, pos: pos}
 	for i, p := range fn.Params {
 		fr.env[p] = args[i]
@@ -172,6 +181,9 @@ func (e *Exec) callSSA(caller *frame, pos token.Pos, fn *ssa.Function, args []Va
 	fr.block = fn.Blocks[0]
 	e.runFrame(fr)
 	e.depth--
+	if callTrace != "" && strings.Contains(name, callTrace) {
+		fmt.Fprintf(os.Stderr, "%*s  = %s\n", e.depth+1, "", showVal(fr.result))
+	}
 	return fr.result
 }
 
@@ -1514,8 +1526,19 @@ func (e *Exec) callBuiltin(fr *frame, pos token.Pos, fn *ssa.Builtin, args []Val
 		}
 		return r
 	case "clear":
-		if m, ok := args[0].(*MapV); ok && m != nil {
-			m.keys, m.vals = nil, nil
+		switch x := args[0].(type) {
+		case *MapV:
+			if x != nil {
+				for i := range x.keys {
+					x.keys[i], x.vals[i] = nil, nil
+				}
+			}
+		case SliceV:
+			et := fn.Type().(*types.Signature).Params().At(0).Type().Underlying().(*types.Slice).Elem()
+			z := e.zero(et)
+			for i := range x.data {
+				x.data[i] = copyVal(z)
+			}
 		}
 		return nil
 	}
@@ -1539,3 +1562,5 @@ func (e *Exec) redirectTarget(name string) *ssa.Function {
 	e.redirCache[name] = f
 	return f
 }
+
+var callTrace = os.Getenv("GOSMT_CALLTRACE")
